@@ -619,10 +619,10 @@ func (env *Env) call(n *ast.CallExpr) *Val {
 				}
 			}
 			return &Val{T: "false", Ty: tBool}
-		case "fst", "snd", "third":
+		case "fst", "snd", "third", "fourth":
 			// components of a multi-value result
 			v := env.eval(n.Args[0])
-			i := map[string]int{"fst": 0, "snd": 1, "third": 2}[id.Name]
+			i := map[string]int{"fst": 0, "snd": 1, "third": 2, "fourth": 3}[id.Name]
 			if v.Tup == nil || i >= len(v.Tup) {
 				specErr("%s of a non-tuple", id.Name)
 			}
